@@ -66,3 +66,17 @@ func VerifEmphasisFlags(source []byte, span Span) (canOpen, canClose bool) {
 	f := emphasisFlags(source, span)
 	return f&openerFlag != 0, f&closerFlag != 0
 }
+
+// VerifPoint, when set, is called by VerifStep.
+// Instrumented builds (generated outside the repository by the verification
+// machinery, never committed) call VerifStep(id) before every statement;
+// the checker uses it as a deterministic step counter and as the set of
+// scheduling points of its cooperative scheduler.
+var VerifPoint func(id int)
+
+// VerifStep calls VerifPoint if it is set.
+func VerifStep(id int) {
+	if f := VerifPoint; f != nil {
+		f(id)
+	}
+}
